@@ -6,6 +6,8 @@ W(k, d, v) == [k |-> k, del |-> d, v |-> v]
 Singles(K, V) == {<<W(k, FALSE, v)>> : k \in K, v \in V} \cup {<<W(k, TRUE, <<>>)>> : k \in K}
 WSsmall == {<<>>} \cup Singles(NK2, NV1) \cup {<<W(<<97>>, TRUE, <<>>), W(<<97, 98>>, FALSE, <<1>>)>>}
 TrueConst == TRUE
+NV2 == {<<1>>, <<2>>}
+WSvals == {<<>>} \cup Singles(NK2, NV2)
 Two == 2
 TBoth == {"state", "io"}
 TState == {"state"}
